@@ -76,13 +76,28 @@ func verifStubGetClient(c *cluster) (EtcdClient, error) { return verifCli{}, nil
 // load = "Get the prefix, turn the response into []KV, handleChanges": the Get
 // answers with the model's current key set.
 func verifStubLoad(c *cluster, cli EtcdClient, key string) int64 {
+	verifLoadCalls = append(verifLoadCalls, key)
+	if verifSnapshotFor != nil {
+		c.handleChanges(key, verifSnapshotFor(key))
+		return 1
+	}
 	c.handleChanges(key, verifSnapshot())
 	return 1
 }
 
+// harnesses with several prefixes supply the model snapshot per prefix;
+// verifLoadCalls records the prefixes load was asked for, verifWatchCalls those watch was.
+var (
+	verifSnapshotFor func(prefix string) []KV
+	verifLoadCalls   []string
+	verifWatchCalls  []string
+)
+
 // watch = "feed every watch response to handleWatchEvents until done": the
 // harness delivers the responses itself (verifDeliver).
-func verifStubWatch(c *cluster, cli EtcdClient, key string, rev int64) {}
+func verifStubWatch(c *cluster, cli EtcdClient, key string, rev int64) {
+	verifWatchCalls = append(verifWatchCalls, key)
+}
 
 // ---- model subscriber: key -> value view maintained from OnAdd/OnDelete ----
 
